@@ -187,7 +187,8 @@ Theorem reshape_refines_partial inferred s next (t r : ptensor) nx' :
   (Nat.eqb (prodl' (shape V t)) (pnumel (paxes t)) && (prodl' (shape V t) <=? 1)) = false ->
   pt_reshape V inferred s next t = Ok (r, nx') ->
   wf V r ->
-  (forall goals nx st', unify (rs_fuel goals t) (productAxis goals) (productAxis (vaxes t)) (ustate0 nx) = Ok (true, st') ->
+  (forall s' goals nx st', (inferred = 0 -> s' = s) -> goal_axes s' next = (goals, nx) ->
+     unify (rs_fuel goals t) (productAxis goals) (productAxis (vaxes t)) (ustate0 nx) = Ok (true, st') ->
      (next <= nx)%positive -> (forall e, In e goals -> below nx e) ->
      complete_for nx (productAxis goals) (productAxis (vaxes t)) (us_subst st') /\
      solvable (us_subst st') /\
@@ -197,13 +198,13 @@ Theorem reshape_refines_partial inferred s next (t r : ptensor) nx' :
     denote V r idx' = denote V t (unflat (shape V t) (flat_offset (shape V r) idx')).
 Proof.
   intros W Bt Pos Tiny H Wr Prem.
-  destruct (reshape_inv _ _ _ _ _ _ Tiny H) as (s' & goals & nx & st' & groups & vs & En & _ & Eg & Eu & Egr & Ev & Es & Egs & ->).
+  destruct (reshape_inv _ _ _ _ _ _ Tiny H) as (s' & goals & nx & st' & groups & vs & En & Hinf & Eg & Eu & Egr & Ev & Es & Egs & ->).
   set (sigma := us_subst st') in *. set (f2 := rs_fuel goals t + length sigma + 2) in *.
-  rewrite goal_axes_dense in Eg. destruct (dense_axes_spec _ _ _ _ Eg) as (Gn & Gle & Gk & Gnd).
+  pose proof Eg as EgA. rewrite goal_axes_dense in Eg. destruct (dense_axes_spec _ _ _ _ Eg) as (Gn & Gle & Gk & Gnd).
   assert (Gbel : forall e, In e goals -> below nx e).
   { intros e He k Hk. apply fv_of_fvn in Hk. destruct Hk as (n & Hk).
     assert (In (k, n) (flat_map fvn goals)) by (apply in_flat_map; eauto). destruct (Gk _ _ H0) as (_ & Hlt & _). exact Hlt. }
-  destruct (Prem goals nx st' Eu Gle Gbel) as (Hc & Hm & [SZ Sz]). fold sigma in Hc, Hm, SZ, Sz.
+  destruct (Prem s' goals nx st' Hinf EgA Eu Gle Gbel) as (Hc & Hm & [SZ Sz]). fold sigma in Hc, Hm, SZ, Sz.
   set (R := mkPT _ _ _ _) in *.
   assert (ShR : shape V R = s') by exact Es.
   split; [rewrite ShR; symmetry; exact En|]. split; [reflexivity|]. intros idx' Bd. rewrite ShR in Bd |- *.
@@ -368,3 +369,41 @@ Proof.
 Qed.
 
 End Reshape.
+
+(** the premises are satisfiable: a 2 x 3 matrix (storage 2 x 3, pattern [X(2), Y(3)]) reshaped to [6];
+    the unifier binds the target axis to [X * Y] *)
+Definition rs_ex : ptensor nat := mkPT (fun c => match c with [i; j] => 10 * i + j | _ => 0 end)
+                                      [(1%positive, 2); (2%positive, 3)] [Phys 1 2; Phys 2 3] 99.
+
+Example reshape_ex :
+  exists r nx', pt_reshape nat 0 [6] 3 rs_ex = Ok (r, nx') /\ wf nat r /\ shape nat r = [6] /\
+    denote nat r [5] = 12 /\ denote nat rs_ex [1; 2] = 12 /\
+    (forall s' goals nx st', (0 = 0 -> s' = [6]) -> goal_axes s' 3 = (goals, nx) ->
+       unify (rs_fuel nat goals rs_ex) (productAxis goals) (productAxis (vaxes rs_ex)) (ustate0 nx) = Ok (true, st') ->
+       complete_for nx (productAxis goals) (productAxis (vaxes rs_ex)) (us_subst st') /\
+       solvable (us_subst st') /\
+       size_preserving (us_subst st') (goals ++ paxes_axes' (paxes rs_ex))).
+Proof.
+  do 2 eexists. split; [vm_compute; reflexivity|]. split.
+  { constructor; cbn [paxes vaxes].
+    - simpl. repeat constructor; simpl; intuition discriminate.
+    - intros k n. simpl. intuition. }
+  split; [reflexivity|]. split; [reflexivity|]. split; [reflexivity|].
+  intros s' goals nx st' Hs Eg Eu. rewrite (Hs eq_refl) in Eg. vm_compute in Eg. inversion Eg; subst goals nx. clear Eg Hs.
+  vm_compute in Eu. inversion Eu; subst st'. clear Eu. cbn [us_subst].
+  set (P := Prod [Phys 1 2; Phys 2 3]).
+  split; [|split].
+  - intros rho _ R2 E. exists rho. split; [intros k _; reflexivity|]. split.
+    + constructor; [|constructor]. cbn [snd]. exact R2.
+    + constructor; [|constructor]. cbn [fst snd]. exact E.
+  - intros g. exists (fun k => if Pos.eqb k 3 then eval g P else g k). split.
+    + constructor; [|constructor]. cbn [fst snd]. reflexivity.
+    + intros k Hk. destruct (Pos.eqb_spec k 3) as [->|_]; [discriminate Hk|reflexivity].
+  - split.
+    + intros k c Hk. simpl in Hk. destruct (Pos.eqb_spec 3 k) as [<-|_]; [|discriminate]. inversion Hk; subst c.
+      intros k' n' c' Hk' Ha. simpl in Hk'. simpl in Ha.
+      destruct Hk' as [Hk'|[Hk'|[]]]; inversion Hk'; subst; simpl in Ha; discriminate.
+    + intros e He k n c Hk Ha. simpl in He. destruct He as [<-|[<-|[<-|[]]]]; simpl in Hk; destruct Hk as [Hk|[]]; inversion Hk; subst;
+        simpl in Ha; inversion Ha; subst; reflexivity.
+Qed.
+
